@@ -4,7 +4,7 @@
 //verif:obligation C02.d pskConn.Read / Write: every byte the underlying connection returns (also when it returns data together with an error) is passed through the read key stream exactly once, in order, before the caller sees it, and the stream position advances by exactly that many bytes; every byte written is passed through the write key stream exactly once and the cipher text, not the plain text, reaches the connection
 //verif:bound buffers of 0..3 bytes, any underlying (n, err) with 0 <= n <= len(buf), established streams (nonce exchange done)
 //verif:stub cipher.Stream = position-indexed stub cipher (dst[i] = src[i] + 1 + (pos+i)%2 mod 256) injected through the code's own cipher.Stream fields; net.Conn stub returning symbolic (n, err, bytes)
-//verif:outside XSalsa20 itself, the nonce exchange, short writes of the underlying connection (net.Conn contract)
+//verif:outside XSalsa20 itself, short writes of the underlying connection (net.Conn contract)
 package pnet
 
 import (
